@@ -107,7 +107,7 @@ func (s *Struct) Source(p *Pkg) string {
 		head = ind + s.Name
 	}
 	if s.Derived != "" {
-		fmt.Fprintf(&b, "%s%s %s\n", head, s.TypeParamsDecl(), s.Derived)
+		fmt.Fprintf(&b, "%s%s %s%s\n", head, s.TypeParamsDecl(), s.Derived, s.DerivedArgs)
 	} else {
 		tr := ""
 		if s.Trailing {
